@@ -369,10 +369,9 @@ impl<'a, R: Clone> AsyncGlobalCache<'a, R> {
                 self.stats.record_hit();
 
                 // Update LRU order on cache hit (after releasing DashMap lock)
-                if self.limit.is_some()
-                    && (self.policy == EvictionPolicy::LRU
-                        || self.policy == EvictionPolicy::ARC
-                        || self.policy == EvictionPolicy::TLRU)
+                if self.policy == EvictionPolicy::LRU
+                    || self.policy == EvictionPolicy::ARC
+                    || self.policy == EvictionPolicy::TLRU
                 {
                     if self.cache.contains_key(key) {
                         let mut order = self.order.lock();
